@@ -491,3 +491,51 @@ func (r *R) Finish() {
 	r.T.Logf("verif %s: %d evaluations, %d distinct non-trivial, %d violations, %d known, events=%v, %.1fs",
 		r.ID, r.evals, len(r.distinct), r.nviol, len(r.known), r.events, time.Since(r.start).Seconds())
 }
+
+// WG is a wait group for harness goroutines that run inside testing/synctest bubbles. With the
+// pinned toolchain (go1.25.0) a sync.WaitGroup used in a bubble was seen, rarely, to abort the
+// process ("WaitGroup.Add called from multiple synctest bubbles", with a WaitGroup local to one
+// bubble) and to block in Wait without being counted as durably blocked, which freezes the
+// bubble's clock. WG waits on a sync.Cond, whose Wait is durably blocking.
+type WG struct {
+	mu sync.Mutex
+	c  *sync.Cond
+	n  int
+}
+
+func (w *WG) Add(d int) {
+	w.mu.Lock()
+	if w.c == nil {
+		w.c = sync.NewCond(&w.mu)
+	}
+	w.n += d
+	if w.n < 0 {
+		w.mu.Unlock()
+		panic("verifrt.WG: negative counter")
+	}
+	if w.n == 0 {
+		w.c.Broadcast()
+	}
+	w.mu.Unlock()
+}
+
+func (w *WG) Done() { w.Add(-1) }
+
+func (w *WG) Wait() {
+	w.mu.Lock()
+	if w.c == nil {
+		w.c = sync.NewCond(&w.mu)
+	}
+	for w.n > 0 {
+		w.c.Wait()
+	}
+	w.mu.Unlock()
+}
+
+func (w *WG) Go(f func()) {
+	w.Add(1)
+	go func() {
+		defer w.Done()
+		f()
+	}()
+}
